@@ -5,9 +5,12 @@ ROOT = pathlib.Path(__file__).resolve().parents[2]
 ORACLE = ROOT / ".cache" / "oracle" / "oracle"
 
 
-def run(file_sexp, cases, oracle=ORACLE, timeout=600):
+def run(file_sexp, cases, oracle=ORACLE, timeout=None):
     """cases: list of s-expression lines '(ID OP FUEL TYPE ARGS..)'.
     Returns dict id -> (status, [payload parts])."""
+    if timeout is None:
+        # ~1 ms per case on an idle machine; leave two orders of magnitude for a loaded one
+        timeout = 900 + len(cases) // 5
     inp = file_sexp + "\n" + "\n".join(cases) + "\n"
     env = dict(os.environ)
     p = subprocess.run(["/bin/sh", "-c", f"ulimit -s unlimited 2>/dev/null; exec {oracle}"],
